@@ -99,6 +99,14 @@ pub enum UserKind {
     ReadClasses(u8),
     /// `read_with_handler`: the response goes to a handler supplied with the request instead of the association's
     ReadCustom(u8),
+    /// `get_file_auth_key`
+    FileAuth,
+    /// `open_file` for writing (true) or reading (false)
+    FileOpen(bool),
+    /// `write_file_block` (block number, length, last block)
+    FileWriteBlock(u8, u8, bool),
+    /// `close_file`
+    FileClose,
     /// commands: (group 12 or 41 var, index, 16-bit index?) in up to 3 headers
     Command {
         sbo: bool,
@@ -823,6 +831,33 @@ fn on_fragment(p: &mut PeerShared, src: u16, dest: u16, bytes: &[u8], worder: u6
                 &free_format(70, 7, &file_descriptor(&name, 4321, rid)),
             ));
         }
+        29 => {
+            // AUTHENTICATE_FILE with g70v2: answered with a key and empty names
+            let mut body = Vec::new();
+            body.extend_from_slice(&12u16.to_le_bytes());
+            body.extend_from_slice(&0u16.to_le_bytes());
+            body.extend_from_slice(&12u16.to_le_bytes());
+            body.extend_from_slice(&0u16.to_le_bytes());
+            body.extend_from_slice(&0x1234_ABCDu32.to_le_bytes());
+            fragments.push(response_bytes(
+                Ctrl::request(seq),
+                refapp::FUNC_RESPONSE,
+                iin,
+                &free_format(70, 2, &body),
+            ));
+        }
+        refapp::FUNC_WRITE if bytes.len() >= 16 && bytes[2] == 70 && bytes[3] == 5 => {
+            // WRITE of a file block (g70v5): answered with the transport status g70v6 for that handle and block
+            let obj = &bytes[8..];
+            let mut body = obj[..8].to_vec();
+            body.push(0);
+            fragments.push(response_bytes(
+                Ctrl::request(seq),
+                refapp::FUNC_RESPONSE,
+                iin,
+                &free_format(70, 6, &body),
+            ));
+        }
         26 => {
             // CLOSE_FILE with g70v4
             let obj = bytes.get(8..).unwrap_or(&[]);
@@ -1047,9 +1082,19 @@ fn on_fragment(p: &mut PeerShared, src: u16, dest: u16, bytes: &[u8], worder: u6
         Reply::FileStatus(code) => {
             if let Some(f) = fragments.first() {
                 let mut f = f.clone();
-                let is_status = f.len() >= 23 && f[4] == 70 && f[5] == 4;
+                let mut is_status = f.len() >= 23 && f[4] == 70 && f[5] == 4;
                 if is_status {
                     f[22] = code;
+                } else if f.len() >= 19 && f[4] == 70 && f[5] == 6 {
+                    // transport status of a written block
+                    is_status = true;
+                    f[18] = code;
+                } else if f.len() >= 22 && f[4] == 70 && f[5] == 2 && code != 0 {
+                    // authentication refused: key zero
+                    is_status = true;
+                    for b in &mut f[18..22] {
+                        *b = 0;
+                    }
                 }
                 let valid = !is_status || code == 0;
                 p.transmit(addr, &f, "file-status", valid, answers, 0);
@@ -1519,6 +1564,59 @@ pub fn spawn_user(
                     Err(e) => (false, format!("{:?}", e)),
                 }
             }
+            UserKind::FileAuth => {
+                let cred = crate::master::FileCredentials {
+                    user_name: "user".to_string(),
+                    password: "secret".to_string(),
+                };
+                match h.get_file_auth_key(cred).await {
+                    Ok(k) => (true, format!("Ok({:?})", k)),
+                    Err(e) => (false, format!("{:?}", e)),
+                }
+            }
+            UserKind::FileOpen(write) => {
+                match h
+                    .open_file(
+                        "w.bin",
+                        crate::master::AuthKey::new(0x0102_0304),
+                        crate::app::Permissions::default(),
+                        300,
+                        if write {
+                            crate::master::FileMode::Write
+                        } else {
+                            crate::master::FileMode::Read
+                        },
+                        512,
+                    )
+                    .await
+                {
+                    Ok(f) => (true, format!("Ok({:?})", f)),
+                    Err(e) => (false, format!("{:?}", e)),
+                }
+            }
+            UserKind::FileWriteBlock(block, len, last) => {
+                let mut bn = crate::master::BlockNumber::default();
+                for _ in 0..block {
+                    let _ = bn.increment();
+                }
+                if last {
+                    bn.set_last();
+                }
+                let data: Vec<u8> = (0..len as usize)
+                    .map(|i| crate::verif::nodes::master::file_octet(block as u32, i))
+                    .collect();
+                match h
+                    .write_file_block(crate::master::FileHandle::new(7), bn, data)
+                    .await
+                {
+                    Ok(()) => (true, "Ok".to_string()),
+                    Err(e) => (false, format!("{:?}", e)),
+                }
+            }
+            UserKind::FileClose => match h.close_file(crate::master::FileHandle::new(7)).await {
+                Ok(()) => (true, "Ok".to_string()),
+                Err(e) => (false, format!("{:?}", e)),
+            },
             UserKind::FileInfo => match h.get_file_info("info.txt").await {
                 Ok(i) => (true, format!("Ok({} {})", i.name, i.size)),
                 Err(e) => (false, format!("{:?}", e)),
